@@ -24,7 +24,7 @@ EXPLANATION = (
     "equal_range with first != second; FieldTrait_Hash_Array sizes itself by the greatest tag + 1 and maps tag → row index; R12.4 "
     "presorted_set::insert (class template and FieldTrait specialisation): the returned iterator is not derived from a pointer obtained "
     "before `delete[] _arr`; duplicate → (end(), false); R12.5 reverse tables: std::map<const char*, …, c_str_compare> whose comparator is "
-    "strcmp(a,b) < 0. NOT decided: arbitrary histories.")
+    "strcmp(a,b) < 0; R12.6 in both branches of insert the tail [where, end) is copied to insertion index + 1. NOT decided: arbitrary histories.")
 extra = {}
 
 
@@ -140,6 +140,39 @@ def run(ctx):
             okd = okd or (len(rs) == 1 and any(x.is_call and x.callee is not None and x.callee.get('n') == 'end' for x in rs[0].walk()) and
                           any(x.k == 'CXXBoolLiteralExpr' and x.value == 0 for x in rs[0].walk()))
         ctx.check(okd, 'R12.4', key + '::insert#duplicate-refused', f.loc, 'an element already present yields (end(), false) and nothing is inserted')
+        # R12.6 element placement, the same in both branches: the tail [where, end) moves one slot up, the new element lands at where's index
+        pw = None
+        for n in f.all_nodes():
+            if n.k == 'DeclStmt':
+                for dd, init in n.r.get('decls', []):
+                    nm = f.tu.decls[dd]['n']
+                    if nm == 'where':
+                        pw = dd
+        locs = {f.tu.decls[dd]['n']: dd for n in f.all_nodes() if n.k == 'DeclStmt' for dd, init in n.r.get('decls', [])}
+        ctx.need('where' in locs, key + '::insert: insertion point local `where` not found')
+        wd = locs['where']
+        idx = [dd for nm, dd in locs.items() for (dn, kind, val) in q.local_defs(f, dd)
+               if kind == 'init' and val is not None and val.strip(casts=True).k == 'BinaryOperator' and val.strip(casts=True).op == '-' and
+               q.refers_to_decl(val.strip(casts=True).children[0], wd)]
+        ctx.need(idx, key + '::insert: index of the insertion point (where - _arr) not found')
+        def sym(x):
+            if q.refers_to_decl(x, wd):
+                return 'WHERE'
+            if x.strip(casts=True).k == 'DeclRefExpr' and x.strip(casts=True).declid in idx:
+                return 'IDX'
+            return 'BASE:' + x.text()
+        copies = [c for c in f.calls() if c.callee_qp in ('memcpy', 'memmove', 'std::memcpy', 'std::memmove') and len(c.args) == 3]
+        ctx.need(len(copies) >= 3, key + '::insert: memcpy/memmove calls not found')
+        tails = [c for c in copies if q.refers_to_decl(c.args[1], wd)]
+        ctx.need(tails, key + '::insert: no copy of the tail starting at the insertion point')
+        for i, c in enumerate(tails):
+            lf = q.linear(c.args[0], sym=sym)
+            t = dict(lf.t)
+            bases = [k for k in t if k.startswith('BASE:')]
+            good = (t == {'WHERE': 1} and lf.c == 1) or (len(bases) == 1 and t.get('IDX') == 1 and len(t) == 2 and t[bases[0]] == 1 and lf.c == 1)
+            ctx.check(good, 'R12.6', key + '::insert#tail-shifts-by-one@%d' % i, c.loc, 'the tail is copied to (insertion index + 1)',
+                      'the tail starting at the insertion point is copied to `%s` — not to insertion index + 1: the element that was at the insertion point is '
+                      'overwritten by the new one' % c.args[0].text())
     # ---------------- R12.5 reverse tables
     recs = prog.records('FIX8::F8MetaCntx')
     ctx.need(recs, 'F8MetaCntx record not found')
@@ -162,3 +195,4 @@ def run(ctx):
     ctx.check(okc and wired, 'R12.5', 'FIX8::F8MetaCntx::_comp#strict-order', r['file'].split('/')[-1], 'the comparator is strcmp(a, b) < 0 (a strict weak order)')
     ctx.floor('R12.3', 7)
     ctx.floor('R12.4', 4)
+    ctx.floor('R12.6', 2)
